@@ -4,6 +4,7 @@ package interp
 
 import (
 	"fmt"
+	"os"
 	"sort"
 	"strings"
 	"sync"
@@ -73,6 +74,7 @@ type pathState struct {
 	nconc    map[*Term]int
 	ivals    map[string]*ival
 	cache    Model // a model of the current path condition, if known
+	ufDecl   map[string]bool
 	monitor  *writeMonitor
 }
 
@@ -110,6 +112,7 @@ func (ps *pathState) assertPC(c *Term) {
 }
 
 var CrossCheckIntervals = false
+var Progress = os.Getenv("VP_PROGRESS") != ""
 
 // decide3 is eval3 with an optional solver cross-check (selftest).
 func (ps *pathState) decide3(c *Term) int {
@@ -527,6 +530,9 @@ func (ex *Explorer) record(rec *PathRecord, ps *pathState, funcs map[string]int)
 	ex.mu.Lock()
 	defer ex.mu.Unlock()
 	ex.Paths++
+	if Progress && ex.Paths%5000 == 0 {
+		fmt.Fprintf(os.Stderr, "  .. %d paths, %d queued, outcomes %v\n", ex.Paths, len(ex.work), ex.Outcomes)
+	}
 	ex.Forks += ps.forks
 	ex.TotalSteps += int64(rec.Steps)
 	if rec.Steps > ex.MaxSteps {
@@ -566,8 +572,8 @@ func (ex *Explorer) record(rec *PathRecord, ps *pathState, funcs map[string]int)
 	}
 	if key == "panic" || key == "budget" {
 		lab := rec.Outcome
-		if len(lab) > 60 {
-			lab = lab[:60]
+		if len(lab) > 90 {
+			lab = lab[:90]
 		}
 		if ex.violPerLabel[lab] < ex.PerLabelCap {
 			ex.violPerLabel[lab]++
